@@ -15,7 +15,7 @@ import (
 
 func init() {
 	Register("C19", "Decides structural necessary conditions of 'the ordered containers behave like insertion-ordered maps': (del) removal from the order list is control-dependent on the key having been found; (iter) no method mutates the order list while ranging over it; (set) every write that may introduce a key appends it to the order list exactly when it is new, and constructors cannot create duplicates; (sib) the three generated map instances are identical modulo key/value types; (lock) every exported method takes the container's RWMutex in the right mode and releases it by defer; (sep) JSON separators. Does NOT decide full equivalence with a reference dictionary over operation histories.",
-		c19del, c19iter, c19set, c19sib, c11lockRule("C19.lock"), c19sep, c19ctor, mapStoreRule("C19.mapstore"), c19leak)
+		c19del, c19iter, c19set, c19sib, c11lockRule("C19.lock"), c19sep, c19ctor, mapStoreRule("C19.mapstore"), c19leak, presizeRule("C19.presize"))
 }
 
 // container: a struct with fields data (map), order (slice), mx (sync.RWMutex).
